@@ -527,7 +527,7 @@ fn c18a_xz_block_size_respected() {
 
 // C03-A (first half): prepare_next_block must remember where the block STARTS (before its header), because the index
 // records header + compressed data + check as the block's unpadded size.
-//@ {"name":"c03a_block_start_before_header","props":["C03","C02"],"obligation":"C03-A","timeout":2400,"mem_gb":13,"stubbing":true,"functions":["xz::writer::XZWriter::prepare_next_block","xz::writer::XZWriter::write_block_header","enc::lzma2_writer::LZMA2Writer::new"],"bounds":"no pre-filter, dict 4096, check type CRC32 (concrete); unwind 42","assumes":["LZMAEncoder::new stubbed (verif_cheap_encoder)"],"stubs":["LZMAEncoder::new -> verif_cheap_encoder"]}
+//@ {"name":"c03a_block_start_before_header","no_inputs":true,"props":["C03","C02"],"obligation":"C03-A","timeout":2400,"mem_gb":13,"stubbing":true,"functions":["xz::writer::XZWriter::prepare_next_block","xz::writer::XZWriter::write_block_header","enc::lzma2_writer::LZMA2Writer::new"],"bounds":"no pre-filter, dict 4096, check type CRC32 (concrete); unwind 42","assumes":["LZMAEncoder::new stubbed (verif_cheap_encoder)"],"stubs":["LZMAEncoder::new -> verif_cheap_encoder"]}
 #[kani::proof]
 #[kani::unwind(42)]
 #[kani::stub(crate::enc::encoder::LZMAEncoder::new, crate::enc::encoder::verif_stubs_enc::verif_cheap_encoder)]
